@@ -118,6 +118,11 @@ class ORSet:
                 self._entries[element] |= other_tags
         for tags in self._entries.values():
             tags -= self._removed
+        # A replica restarted from an older snapshot learns its own later tags
+        # back from its peers; never hand out one of those sequence numbers again.
+        own = [seq for node, seq in other._removed.union(*other._entries.values()) if node == self._node_id]
+        if own:
+            self._seq = max(self._seq, max(own) + 1)
 
     def to_dict(self) -> dict:
         """Serialize to a plain dict."""
